@@ -259,7 +259,7 @@ def replay(o):
 def bounded(tier, seed):
     from ..runner import native
 
-    n = 1 if tier == "quick" else 12
+    n = 1 if tier == "quick" else 5
     extra = {"sim_grids": 2, "solvers": ["euler", "runge-kutta"]} if tier == "quick" else {}
     res = native("conservation.py", {"seed": seed, "n": n, **extra}, timeout=3000)
     if not res.get("ok"):
